@@ -95,7 +95,8 @@ variants (same node test, same negated fields):
   group (`V.rep`): `("a" _)+ . "e"` skips anonymous nodes between the `_` and the `"e"`.
 Outside the fragment (`none`): an anchor before a quantified group or inside a group at its start /
 end, a captured or anchored group whose first element is quantified, a repeated group that itself
-has variants, more than 128 variants. -/
+has variants or whose body can match nothing, more than 128 variants.
+`GroupProps.lean` proves the expansion equal to a direct semantics of groups. -/
 
 inductive V where
   | it (dot : Bool) (i : Item)
@@ -105,51 +106,103 @@ inductive V where
 
 def concatAll (xs ys : List (List V)) : List (List V) := xs.flatMap fun a => ys.map fun b => a ++ b
 
-def powV (vs : List (List V)) : Nat → List (List V)
-  | 0 => [[]]
-  | k + 1 => concatAll vs (powV vs k)
-
-def markFirst (caps : List String) (v : List V) : Option (List V) :=
-  if caps.isEmpty then some v else
-  match v with
-  | .it d (.mk i f p .one cs) :: r => some (.it d (.mk i f p .one (cs ++ caps)) :: r)
-  | _ => none
-
-def setDot (v : List V) : Option (List V) :=
-  match v with
-  | .it _ (.mk i f p .one cs) :: r => some (.it true (.mk i f p .one cs) :: r)
-  | _ => none
-
 def firstHasDot : List Elem → Bool
   | .item d _ :: _ => d
   | .group d _ _ _ :: _ => d
   | [] => false
 
+/-! Step 1, purely syntactic: captures and the anchor written on a group are moved to the group's
+first element (`pushFirstE/L`); afterwards every group is BARE (no dot, no captures of its own). -/
 mutual
-  def expandElem (n : Nat) : Elem → Option (List (List V))
-    | .item d it => some [[.it d it]]
+  def pushFirstE (caps : List String) (dot : Bool) : Elem → Option Elem
+    | .item d (.mk i f p q cs) =>
+      if caps.isEmpty && !dot then some (.item d (.mk i f p q cs))
+      else if q == .one then some (.item (d || dot) (.mk i f p .one (cs ++ caps))) else none
+    | .group d es q cs =>
+      if caps.isEmpty && !dot then some (.group d es q cs)
+      else if q == .one then
+        match pushFirstL caps dot es with
+        | some es' => some (.group d es' .one cs)
+        | none => none
+      else none
+  def pushFirstL (caps : List String) (dot : Bool) : List Elem → Option (List Elem)
+    | [] => if caps.isEmpty && !dot then some [] else none
+    | e :: r =>
+      match pushFirstE caps dot e with
+      | some e' => some (e' :: r)
+      | none => none
+end
+
+mutual
+  def bareElem : Elem → Option Elem
+    | .item d it => some (.item d it)
     | .group d es q caps =>
       if firstHasDot es || (d && q != .one) then none else
-      match expandElems n es with
+      match bareList es with
       | none => none
-      | some vs0 =>
-        match vs0.mapM (markFirst caps) with
+      | some es' =>
+        match pushFirstL caps d es' with
         | none => none
-        | some vs =>
-          match q with
-          | .one => if d then vs.mapM setDot else some vs
-          | .opt => some ([.gap] :: vs.map (· ++ [.rep]))
-          | .star => if vs.length != 1 then none else
-              some ([.gap] :: (List.range n).flatMap fun k => powV (vs.map (· ++ [.rep])) (k + 1))
-          | .plus => if vs.length != 1 then none else
-              some ((List.range n).flatMap fun k => powV (vs.map (· ++ [.rep])) (k + 1))
-  def expandElems (n : Nat) : List Elem → Option (List (List V))
+        | some es'' => some (.group false es'' q [])
+  def bareList : List Elem → Option (List Elem)
+    | [] => some []
+    | e :: r =>
+      match bareElem e, bareList r with
+      | some a, some b => some (a :: b)
+      | _, _ => none
+end
+
+/-- The least number of nodes a variant takes (items with quantifier one / plus). -/
+def minNodes : List V → Nat
+  | [] => 0
+  | .it _ (.mk _ _ _ q _) :: r => (if q == .one || q == .plus then 1 else 0) + minNodes r
+  | _ :: r => minNodes r
+
+/-! Step 2: variants of bare elements.  A repeated group must take at least one node per repetition
+(`minNodes`), so that `n` repetitions suffice on `n` siblings. -/
+/-- `k` copies of `x`. -/
+def rpt (x : List V) : Nat → List V
+  | 0 => []
+  | k + 1 => x ++ rpt x k
+
+/-- 1 … `n` repetitions of one repetition `x`. -/
+def repVariants (n : Nat) (x : List V) : List (List V) := (List.range n).map fun k => rpt x (k + 1)
+
+/-- The body of a repeated group: exactly one variant, which takes at least one node. -/
+def single? : List (List V) → Option (List V)
+  | [v] => if minNodes v == 0 then none else some v
+  | _ => none
+
+mutual
+  def expandB (n : Nat) : Elem → Option (List (List V))
+    | .item d it => some [[.it d it]]
+    | .group _ es q _ =>
+      match expandBs n es with
+      | none => none
+      | some vs =>
+        match q with
+        | .one => some vs
+        | .opt => some ([.gap] :: vs.map (· ++ [.rep]))
+        | .star =>
+          match single? vs with
+          | some v => some ([.gap] :: repVariants n (v ++ [.rep]))
+          | none => none
+        | .plus =>
+          match single? vs with
+          | some v => some (repVariants n (v ++ [.rep]))
+          | none => none
+  def expandBs (n : Nat) : List Elem → Option (List (List V))
     | [] => some [[]]
     | e :: rest =>
-      match expandElem n e, expandElems n rest with
+      match expandB n e, expandBs n rest with
       | some a, some b => let r := concatAll a b; if r.length > 128 then none else some r
       | _, _ => none
 end
+
+def expandElems (n : Nat) (es : List Elem) : Option (List (List V)) :=
+  match bareList es with
+  | none => none
+  | some es' => expandBs n es'
 
 /-- Decide the anchors: `.` is loose, strict after the unnamed wildcard `_`, waived after a gap. -/
 def finalizeV : List V → Bool → Bool → List Item
